@@ -20,26 +20,21 @@ Proof. repeat split; reflexivity. Qed.
 
 (* ------------------------------------------------------------------ the shared greedy loop *)
 (* LZCore.tokens_from with the window size and the minimum match length as parameters *)
-Fixpoint tokens_from_p (window minm : nat) (fuel : nat) (L : nat) (whole : list N) (pos : nat) : list token :=
+Definition tokens_from_p (window minm : nat) : nat -> nat -> list N -> nat -> list token :=
+  fix go (fuel : nat) (L : nat) (whole : list N) (pos : nat) : list token :=
   match fuel with
   | O => []
   | S f =>
     if Nat.leb (length whole) pos then [] else
     let oldlen := Nat.min pos window in
     let '(len, disp) := occ whole pos (Nat.min (length whole - pos) L) (pos - oldlen) oldlen in
-    if Nat.ltb len minm then Lit (nth pos whole 0%N) :: tokens_from_p window minm f L whole (S pos)
-    else Ref len disp :: tokens_from_p window minm f L whole (pos + len)
+    if Nat.ltb len minm then Lit (nth pos whole 0%N) :: go f L whole (S pos)
+    else Ref len disp :: go f L whole (pos + len)
   end.
 
-Lemma tokens_from_p_model : forall fuel L whole pos,
-  tokens_from_p WINDOW 3 fuel L whole pos = tokens_from fuel L whole pos.
-Proof.
-  induction fuel as [|f IH]; intros L whole pos; [reflexivity|].
-  cbn [tokens_from_p tokens_from].
-  destruct (Nat.leb (length whole) pos); [reflexivity|].
-  destruct (occ whole pos (Nat.min (length whole - pos) L) (pos - Nat.min pos WINDOW) (Nat.min pos WINDOW)) as [len disp].
-  destruct (Nat.ltb len 3); rewrite IH; reflexivity.
-Qed.
+(* the parameters stand outside the `fix`, so the instance is convertible with the model's fixpoint *)
+Lemma tokens_from_p_model : tokens_from_p WINDOW 3 = tokens_from.
+Proof. reflexivity. Qed.
 
 (* LZ10: window, look-ahead and minimum match of LZ10CompressionFormat::compress *)
 Theorem src_LZ10_CONSTS_agrees_loop : forall x,
@@ -193,21 +188,20 @@ Proof. repeat split; reflexivity. Qed.
 
 (* ------------------------------------------------------------------ calculate_lz13_header *)
 Local Open Scope Z_scope.
-Fixpoint hdr_search_p (minm : nat) (n : nat) (win rest : list N) (cap : nat) (length : nat) : nat :=
+Definition hdr_search_p (minm : nat) : nat -> list N -> list N -> nat -> nat -> nat :=
+  fix go (n : nat) (win rest : list N) (cap : nat) (length : nat) : nat :=
   match n with
   | O => length
   | S n' =>
     let y := cpl cap win rest in
     let length := if andb (Nat.leb minm y) (Nat.ltb length y) then y else length in
-    hdr_search_p minm n' (tl win) rest cap length
+    go n' (tl win) rest cap length
   end.
 
-Lemma hdr_search_p_model : forall n win rest cap len, hdr_search_p 3 n win rest cap len = hdr_search n win rest cap len.
-Proof. induction n as [|n IH]; intros; [reflexivity|]. cbn [hdr_search_p hdr_search]. apply IH. Qed.
-
 (* [k0 k1 k2]: the three `length <= K` boundaries; [minx]: the smallest distance tried; [fcmax]: tokens per flag byte *)
-Fixpoint hdr_loop_p (window minx minm k0 k1 k2 : nat) (fcmax : Z)
-                    (fuel : nat) (whole : list N) (len sp : nat) (max_lead buffer_length fc : Z) : outcome Z :=
+Definition hdr_loop_p (window minx minm k0 k1 k2 : nat) (fcmax : Z)
+  : nat -> list N -> nat -> nat -> Z -> Z -> Z -> outcome Z :=
+  fix go (fuel : nat) (whole : list N) (len sp : nat) (max_lead buffer_length fc : Z) : outcome Z :=
   if Nat.leb len sp then Ok (w32 (max_lead + buffer_length)) else
   match fuel with
   | O => Err EOutOfFuel
@@ -217,8 +211,8 @@ Fixpoint hdr_loop_p (window minx minm k0 k1 k2 : nat) (fcmax : Z)
     let step (sp' : nat) (buffer_length : Z) :=
       let max_lead := Z.max max_lead (w32 (Z.of_nat sp' - buffer_length)) in
       let fc := w32 (fc + 1) in
-      if fc =? fcmax then hdr_loop_p window minx minm k0 k1 k2 fcmax f whole len sp' max_lead (w32 (buffer_length + 1)) 0
-      else hdr_loop_p window minx minm k0 k1 k2 fcmax f whole len sp' max_lead buffer_length fc in
+      if fc =? fcmax then go f whole len sp' max_lead (w32 (buffer_length + 1)) 0
+      else go f whole len sp' max_lead buffer_length fc in
     if Nat.eqb length 1 then step (S sp) (w32 (buffer_length + 1))
     else if Nat.leb length k0 then Err EInvalidInput
     else if Nat.leb length k1 then step (sp + length)%nat (w32 (w32 (buffer_length + 1) + 1))
@@ -226,18 +220,8 @@ Fixpoint hdr_loop_p (window minx minm k0 k1 k2 : nat) (fcmax : Z)
     else step (sp + length)%nat (w32 (w32 (buffer_length + 3) + 1))
   end.
 
-Lemma hdr_loop_p_model : forall fuel whole len sp ml bl fc,
-  hdr_loop_p 4096 2 3 2 0x10 0x110 8 fuel whole len sp ml bl fc = hdr_loop fuel whole len sp ml bl fc.
-Proof.
-  induction fuel as [|f IH]; intros whole len sp ml bl fc.
-  - reflexivity.
-  - cbn [hdr_loop_p hdr_loop]. destruct (Nat.leb len sp); [reflexivity|].
-    change (2 - 1)%nat with 1%nat. rewrite hdr_search_p_model.
-    set (length := hdr_search _ _ _ _ _).
-    destruct (Nat.eqb length 1); [|destruct (Nat.leb length 2); [reflexivity|
-      destruct (Nat.leb length 16); [|destruct (Nat.leb length 272)]]];
-      cbv zeta; match goal with |- (if ?c then _ else _) = _ => destruct c end; apply IH.
-Qed.
+Lemma hdr_loop_p_model : hdr_loop_p 4096 2 3 2 0x10 0x110 8 = hdr_loop.
+Proof. reflexivity. Qed.
 
 Theorem src_LZ13_HEADER_CONSTS_agrees : forall x,
   calculate_lz13_header x
